@@ -14,6 +14,13 @@
  *        -> ok <digest>/<64-bit bit count after each Update, 16 hex digits>/... z|nz
  * z = after Final every byte of the real context object is zero (the object is filled with 0xAA
  * before Init so that a missing wipe cannot go unnoticed).
+ *
+ * The driver is an uncooperative caller (drv_common.h): streaming cases run Init/Update/Final twice
+ * on the same context object (digests must agree, "context-reuse-mismatch" otherwise); every part
+ * and the HMAC key are overwritten and freed as soon as the call they were passed to has returned;
+ * one-shot calls (XXX_Buf, HMAC_XXX_Buf, PBKDF2) are first made on the same buffers with flipped
+ * contents; digests go to exact-size blocks that start as junk; an input that does not hold its
+ * bytes after the call prints "input-modified" / "key-modified" in front of the result.
  */
 /* single cases of this driver may run over gigabytes (the > 2^32-byte stream, the very long messages) */
 #define DRV_LINE_CPU_S 300
